@@ -1,13 +1,11 @@
 package props
 
 import (
-	"encoding/json"
-	"fmt"
+		"fmt"
 	"strings"
 
-	"github.com/zerx-lab/wordZero/pkg/document"
-
 	"verif/sim"
+	"verif/world"
 )
 
 // Text templates generated from the documented grammar, as trees (so that a
@@ -56,68 +54,9 @@ func tsrc(ns []*TNode) string {
 }
 
 // TData is template data in a form that survives JSON (replay files).
-type TData struct {
-	Vars  map[string]any   `json:"v,omitempty"`
-	Conds map[string]bool  `json:"c,omitempty"`
-	Lists map[string][]any `json:"l,omitempty"`
-}
+type TData = world.TData
 
-func (d *TData) JSON() string {
-	b, _ := json.Marshal(d)
-	return string(b)
-}
-
-func ParseTData(s string) *TData {
-	var d TData
-	_ = json.Unmarshal([]byte(s), &d)
-	return &d
-}
-
-// ToLib builds a fresh library TemplateData (deep: nothing is shared with d).
-func (d *TData) ToLib() *document.TemplateData {
-	td := document.NewTemplateData()
-	var cp func(v any) any
-	cp = func(v any) any {
-		switch x := v.(type) {
-		case map[string]any:
-			m := map[string]interface{}{}
-			for k, e := range x {
-				m[k] = cp(e)
-			}
-			return m
-		case []any:
-			l := make([]interface{}, len(x))
-			for i, e := range x {
-				l[i] = cp(e)
-			}
-			return l
-		}
-		return v
-	}
-	for _, k := range sortedAnyKeys(d.Vars) {
-		td.SetVariable(k, cp(d.Vars[k]))
-	}
-	for k, v := range d.Conds {
-		td.SetCondition(k, v)
-	}
-	for k, v := range d.Lists {
-		td.SetList(k, cp(v).([]interface{}))
-	}
-	return td
-}
-
-func sortedAnyKeys(m map[string]any) []string {
-	ks := make([]string, 0, len(m))
-	for k := range m {
-		ks = append(ks, k)
-	}
-	for i := 1; i < len(ks); i++ {
-		for j := i; j > 0 && ks[j] < ks[j-1]; j-- {
-			ks[j], ks[j-1] = ks[j-1], ks[j]
-		}
-	}
-	return ks
-}
+func ParseTData(s string) *TData { return world.ParseTData(s) }
 
 // TGen generates templates and data.
 type TGen struct {
